@@ -134,6 +134,12 @@ def _sibling_first(jp, env, q: str) -> None:
         c.find_one([{"a": [1, {"a": 2}], "b": "ab"}, 1])
     except Exception:  # noqa: BLE001, S110
         pass
+    # (through the environment's own entry points too: what they keep between calls belongs to that instance)
+    for call in (sib.find, sib.find_one, lambda q_, d_: list(sib.finditer(q_, d_))):
+        try:
+            call(q, [{"a": [1, {"a": 2}], "b": "ab"}, 1])
+        except Exception:  # noqa: BLE001, S110
+            pass
     # ... and an environment built on the documented extension point `parser_class`, with a parser subclass that is MORE PERMISSIVE
     # than the stock one (surrogate escapes are ordinary code points, any index is in range): what it accepted is its own business
     perm = _SIBLINGS.get("permissive")
